@@ -26,7 +26,17 @@ use tiny_std::unix::fd::AsRawFd;
 use tiny_std::UnixString;
 use vharness::{guarded, json, quiet_panics, Out, Value};
 
-const LIMIT: u64 = 30;
+/// seconds a run may take before it is reported as a hang (IOIMPLS_LIMIT overrides; the check
+/// re-runs a reported hang alone with a multiple of it before it believes it)
+fn limit() -> u64 {
+    std::env::var("IOIMPLS_LIMIT").ok().and_then(|x| x.parse().ok()).unwrap_or(10)
+}
+/// every run has an index (the order of the `timed` calls); with IOIMPLS_ONLY=<idx> only that one runs
+static RUN_IDX: std::sync::atomic::AtomicUsize = std::sync::atomic::AtomicUsize::new(0);
+static LAST_IDX: std::sync::atomic::AtomicUsize = std::sync::atomic::AtomicUsize::new(0);
+fn only() -> Option<usize> {
+    std::env::var("IOIMPLS_ONLY").ok().and_then(|x| x.parse().ok())
+}
 
 fn us(p: &str) -> UnixString {
     UnixString::try_from_str(p).expect("path")
@@ -45,15 +55,21 @@ enum Run {
     Done(Obs),
     Panic(String),
     Hang,
+    Skipped,
 }
 /// runs `f` on its own thread; no answer within LIMIT seconds is a hang (the thread is abandoned)
 fn timed(f: impl FnOnce() -> Obs + Send + 'static) -> Run {
+    let idx = RUN_IDX.fetch_add(1, std::sync::atomic::Ordering::SeqCst);
+    LAST_IDX.store(idx, std::sync::atomic::Ordering::SeqCst);
+    if only().is_some_and(|o| o != idx) {
+        return Run::Skipped;
+    }
     let (tx, rx) = mpsc::channel();
     std::thread::spawn(move || {
         let r = guarded(f);
         let _ = tx.send(r);
     });
-    match rx.recv_timeout(Duration::from_secs(LIMIT)) {
+    match rx.recv_timeout(Duration::from_secs(limit())) {
         Ok(Ok(o)) => Run::Done(o),
         Ok(Err(m)) => Run::Panic(m),
         Err(_) => Run::Hang,
@@ -65,11 +81,19 @@ struct Sink {
     hangs: std::collections::HashMap<(String, String), u32>,
 }
 impl Sink {
-    /// after two hangs of the same helper on the same implementor the remaining cells are skipped
+    /// after a hang of a helper on an implementor its remaining cells are skipped (their indices are
+    /// still counted, so that an index means the same run in every invocation)
     fn gives_up(&self, imp: &str, kind: &str) -> bool {
-        self.hangs.get(&(imp.to_string(), kind.to_string())).copied().unwrap_or(0) >= 2
+        let g = self.hangs.get(&(imp.to_string(), kind.to_string())).copied().unwrap_or(0) >= 1;
+        if g {
+            RUN_IDX.fetch_add(1, std::sync::atomic::Ordering::SeqCst);
+        }
+        g
     }
     fn rec(&mut self, imp: &str, kind: &str, case: &str, expect: &[u8], plan: u8, run: Run, got_override: Option<Vec<u8>>) {
+        if matches!(run, Run::Skipped) {
+            return;
+        }
         let (ok, count, got, hang, panic) = match run {
             Run::Done(o) => (o.ok, o.count, got_override.unwrap_or(o.got), 0, String::new()),
             Run::Panic(m) => (false, -2, vec![], 0, m),
@@ -77,11 +101,13 @@ impl Sink {
                 *self.hangs.entry((imp.to_string(), kind.to_string())).or_insert(0) += 1;
                 (false, -3, vec![], 1, String::new())
             }
+            Run::Skipped => unreachable!(),
         };
         let common = got.iter().zip(expect.iter()).take_while(|(a, b)| a == b).count();
         let mismatch: i64 = if got.as_slice() == expect { -1 } else { common as i64 };
         self.out.ev(&json!({"op":"impl","imp":imp,"kind":kind,"case":case,"len":expect.len(),"rlen":got.len(),
-            "mismatch":mismatch,"ok":i32::from(ok),"count":count,"plan":plan,"hang":hang,"panic":panic}));
+            "mismatch":mismatch,"ok":i32::from(ok),"count":count,"plan":plan,"hang":hang,"panic":panic,
+            "idx":LAST_IDX.load(std::sync::atomic::Ordering::SeqCst),"limit_s":limit()}));
         self.out.flush();
     }
 }
@@ -333,7 +359,7 @@ where
                     Obs { ok, count: pl.len() as i64, got: vec![] }
                 });
                 let hung = matches!(run, Run::Hang);
-                let got = if hung { vec![] } else { prx.recv_timeout(Duration::from_secs(LIMIT)).unwrap_or_default() };
+                let got = if hung { vec![] } else { prx.recv_timeout(Duration::from_secs(limit())).unwrap_or_default() };
                 let case = format!("{} bytes (payload #{pi}, sndbuf {sb}), peer {behaviour}", n);
                 if behaviour == "closes early" {
                     // the peer is gone: an error is certain only when the payload cannot fit the buffers
